@@ -110,6 +110,10 @@ fn save_test_timings(
     if let Some(dir) = path.parent() {
         let _ = std::fs::create_dir_all(dir);
     }
+    #[cfg(feature = "verif")]
+    if veryl_path::sim::write_point("timings", path, lines.join("\n").as_bytes()).is_err() {
+        return;
+    }
     let _ = std::fs::write(path, lines.join("\n"));
 }
 
@@ -389,6 +393,9 @@ impl CmdTest {
                 .map(|n| n.get())
                 .unwrap_or(1)
                 .min(pending_native.len());
+            #[cfg(feature = "verif")]
+            let num_threads =
+                veryl_path::sim::choice("test.workers", pending_native.len(), num_threads - 1) + 1;
             // Buffer `$display` output to keep concurrent tests from interleaving.
             // A single worker can't interleave, so stream live; `--no-capture`
             // forces streaming even in parallel.
@@ -432,6 +439,8 @@ impl CmdTest {
             // stream as tests complete without interleaving between workers.
             let print_lock = std::sync::Mutex::new(());
             type ThreadTally = (i32, i32, Vec<PathBuf>, Vec<(String, f64)>);
+            #[cfg(feature = "verif")]
+            veryl_path::sim::blocking_begin("test.join", num_threads);
             let results: Vec<ThreadTally> = std::thread::scope(|s| {
                 let queue = &pending_queue;
                 let resource_snap = &resource_snapshot;
@@ -454,6 +463,11 @@ impl CmdTest {
                                 let mut tally_waves: Vec<PathBuf> = Vec::new();
                                 let mut tally_timings: Vec<(String, f64)> = Vec::new();
                                 loop {
+                                    #[cfg(feature = "verif")]
+                                    let _ = veryl_path::sim::point(
+                                        "test.queue",
+                                        std::path::Path::new(""),
+                                    );
                                     let pending = queue.lock().unwrap().next();
                                     let Some(pending) = pending else { break };
                                     if buffered {
@@ -605,6 +619,8 @@ impl CmdTest {
                     .collect();
                 handles.into_iter().map(|h| h.join().unwrap()).collect()
             });
+            #[cfg(feature = "verif")]
+            veryl_path::sim::blocking_end("test.join");
 
             // Workers already printed each result as it finished; fold their
             // tallies and register generated waveforms (needs `&mut metadata`).
